@@ -21,7 +21,8 @@ LEVEL_TEXT = ("bounded symbolic execution of save_contour_coordinates and the pl
               "cannot be encoded)")
 FUNCTIONS = [
     "contours.save_contour_coordinates", "plotting.plot_2D_contour", "plotting.plot_dependence_functions",
-    "plotting.plot_2D_isodensity", "plotting.plot_marginal_quantiles", "plotting.get_default_semantics",
+    "plotting.plot_2D_isodensity", "plotting.plot_marginal_quantiles",
+    "plotting.plot_histograms_of_interval_distributions", "plotting.get_default_semantics",
     "utils.read_ec_benchmark_dataset",
 ]
 BOUNDS = {
@@ -32,8 +33,6 @@ BOUNDS = {
 OUTSIDE = [
     "what numpy's formatter, matplotlib's renderer and pandas' parser do with their arguments (compiled third-party "
     "code): the file round trip and read_ec_benchmark_dataset are checked on concrete files only, not by the solver",
-    "plot_histograms_of_interval_distributions (needs a fitted model; its data hand-over is covered by C09's fit "
-    "harness only indirectly)",
     "styling (colours, labels) of the plots",
 ]
 ASSUMPTIONS = [
@@ -264,6 +263,61 @@ def h_plot_quantiles(h):
         h.close(dist.ppf(q), expected(h, dims[dim].fam, "icdf", q, dims[dim].theta()), "theoretical-quantiles-are-the-model-marginal")
 
 
+def h_plot_histograms(h):
+    """per dimension / per interval: the histogram shows that interval's own data and the curve is the pdf of the
+    distribution fitted to that interval, unmodified"""
+    P = shim.mod("plotting")
+    I = shim.mod("intervals")
+    vc = shim.virocon()
+    DF = shim.mod("dependencies").DependenceFunction
+    rng = np.random.default_rng(4)
+    sample = np.c_[rng.uniform(0.05, 2.95, size=15), rng.uniform(0.5, 4.0, size=15)]
+
+    def lin(x, a=1.0, b=0.5):
+        return a + b * x
+
+    w = FAMILIES["Weibull"]
+    th0 = {p: h.real(f"w_{p}", *w.ranges[p]) for p in w.params}
+    slicer = I.WidthOfIntervalSlicer(1.0, value_range=(0, 2.5), min_n_points=1, min_n_intervals=1)
+    ln = FAMILIES["LogNormal"]
+    descs = [{"distribution": w.make(**th0), "intervals": slicer},
+             {"distribution": ln.make(), "conditional_on": 0, "parameters": {p: DF(lin) for p in ln.params}}]
+    model = vc.GlobalHierarchicalModel(descs)
+    masks, refs, bounds = slicer.slice_(sample[:, 0])
+    cd = model.distributions[1]
+    cd.conditioning_values = np.array(refs)
+    cd.data_intervals = [sample[m, 1] for m in masks]
+    per = []
+    for k in range(len(masks)):
+        th = {"mu": h.real(f"mu{k}", -1.0, 2.0), "sigma": h.real(f"sigma{k}", 0.2, 2.0)}
+        per.append(th)
+    cd.distributions_per_interval = [ln.make(**th) for th in per]
+    cd.parameters_per_interval = per
+    plt_rec = stubs.RecPlt()
+    with stubs.patch_attr(shim.mod("plotting"), "plt", plt_rec):
+        figs, axes_list = P.plot_histograms_of_interval_distributions(model, sample)
+    h.reach()
+    h.check(len(axes_list) == 2, "one-figure-per-dimension")
+    ax0 = axes_list[0]
+    h.check(len(ax0.of("hist")) == 1 and np.array_equal(np.asarray(ax0.of("hist")[0][1][0], dtype=float), sample[:, 0]),
+            "marginal-histogram-shows-its-own-column")
+    pl = ax0.of("plot")
+    h.check(len(pl) == 1, "one-density-curve")
+    xs, ys = pl[0][1][0], pl[0][1][1]
+    for j in (0, 13, 49):
+        h.close(ys[j], expected(h, w, "pdf", float(xs[j]), th0), "marginal-curve-is-the-model-pdf")
+    axs = axes_list[1]
+    for k in range(len(masks)):
+        a = axs[k]
+        h.check(len(a.of("hist")) == 1 and np.array_equal(np.sort(np.asarray(a.of("hist")[0][1][0], dtype=float)),
+                                                           np.sort(sample[masks[k], 1])), "interval-histogram-shows-the-intervals-own-data")
+        pl = a.of("plot")
+        h.check(len(pl) == 1, "one-density-curve-per-interval")
+        xs, ys = pl[0][1][0], pl[0][1][1]
+        for j in (0, 21, 49):
+            h.close(ys[j], expected(h, ln, "pdf", float(xs[j]), per[k]), "interval-curve-is-the-pdf-of-that-intervals-fit")
+
+
 def h_reader(h):
     """concrete only: read_ec_benchmark_dataset returns every row, in order, with its time stamp as index"""
     U = shim.mod("utils")
@@ -310,6 +364,7 @@ def obligations(tier):
         for swap in (False, True):
             yield ("plot_isodensity", h_plot_isodensity, {"rot": rot, "swap": swap, "grid": 3 if tier == "quick" else 5}, {})
         yield ("plot_quantiles", h_plot_quantiles, {"rot": rot}, {})
+    yield ("plot_histograms", h_plot_histograms, {}, {})
     for rows in (1, 3, 40):
         for order in ("chronological", "unordered"):
             yield ("reader", h_reader, {"rows": rows, "order": order}, {})
